@@ -95,6 +95,7 @@ package resolve
 //@   pure
 //@   trusted plan accessor
 //@ func Fetch.FetchInfo
+//@   ensures result == infoOf(recv)
 //@   pure
 //@   trusted plan accessor
 //@ func DataSource.Load
@@ -1186,3 +1187,211 @@ package resolve
 //@     invariant forall a in 0..len(allToClose) :: forall b in 0..len(allToClose) :: a != b ==> allToClose[a] != allToClose[b]
 //@   loop 2:
 //@     invariant !held(r.mu)
+
+// ----------------------------------------------------------------------------------------------
+// C11: request de-duplication. Eligibility (queries only), key components, follower buffer freshness,
+// and the close-once discipline of InflightRequest.Done / SingleFlightItem.loaded:
+//   the non-shared return of GetOrCreate creates the leader permission; FinishOk/FinishErr consume it
+//   at close(); a follower never holds it. A leader path must have consumed it when it returns
+//   (otherwise followers would wait forever).
+//@ decl ghostfield InflightRequest.leaderPerm bool
+//@ decl ghostfield SingleFlightItem.leaderPerm bool
+
+//@ func GraphQLResponse.SingleFlightAllowed
+//@   ensures {only.queries.are.deduplicated} result ==> g != nil && g.Info != nil && g.Info.OperationType == ast.OperationTypeQuery
+//@   pure
+//@   safety nil
+
+//@ func Loader.singleFlightAllowed
+//@   requires l != nil && l.ctx != nil
+//@   ensures {only.queries.are.deduplicated} result ==> fetchItem != nil && fetchItem.Fetch != nil && infoOf(fetchItem.Fetch) != nil && infoOf(fetchItem.Fetch).OperationType == ast.OperationTypeQuery
+//@   ensures {respects.disable.flag} l.ctx.ExecutionOptions.DisableSubgraphRequestDeduplication ==> !result
+//@   pure
+
+//@ func InflightRequest.AddFollower
+//@   modifies atomic(r.followerCount)
+//@ func InflightRequest.HasFollowers
+//@   modifies atomic(r.followerCount)
+
+//@ func InboundRequestSingleFlight.shardFor
+//@   requires r != nil && len(r.shards) > 0
+//@   pure
+
+//@ func SubgraphHeadersBuilder.HashAll
+//@   pure
+//@   trusted interface method (pre-computed headers hash)
+
+//@ func InboundRequestSingleFlight.GetOrCreate
+//@   requires r != nil && len(r.shards) > 0 && ctx != nil
+//@   requires {caller.holds.no.leader.permission} forall x :: !ghostat(InflightRequest.leaderPerm, x)
+//@   ghost var g_shared bool = false
+//@   ghost var g_puts int = 0
+//@   ghost var g_c0 int = 0
+//@   ghost var g_c1 int = 0
+//@   ghost var g_c2 int = 0
+//@   ghost var g_hh int = 0
+//@   at call SubgraphHeadersBuilder.HashAll: ghost g_hh = result
+//@   at call PutUint64: ghost g_c0 = ite(g_puts == 0, arg2, g_c0)
+//@   at call PutUint64: ghost g_c1 = ite(g_puts == 1, arg2, g_c1)
+//@   at call PutUint64: ghost g_c2 = ite(g_puts == 2, arg2, g_c2)
+//@   ghost var g_b int = 0
+//@   ghost var g_slots bool = true
+//@   ghost var g_wrote bool = false
+//@   ghost var g_key int = 0
+//@   at call PutUint64: ghost g_slots = g_slots && len(arg1) == 8 && (g_puts == 0 || (arr(arg1) == g_b && off(arg1) == g_off0 + 8 * g_puts))
+//@   ghost var g_off0 int = 0
+//@   at call PutUint64: ghost g_off0 = ite(g_puts == 0, off(arg1), g_off0)
+//@   at call PutUint64: ghost g_b = ite(g_puts == 0, arr(arg1), g_b)
+//@   at call PutUint64: ghost g_puts = g_puts + 1
+//@   at call Digest.Write: ghost g_wrote = !g_wrote && g_puts == 3 && g_slots && arr(arg1) == g_b && off(arg1) == g_off0 && len(arg1) == 24
+//@   at call Digest.Sum64: ghost g_key = result
+//@   at call Map.LoadOrStore: assert {key.covers.operation.variables.headers} g_puts == 3 && g_c0 == ctx.Request.ID && g_c1 == ctx.VariablesHash && g_c2 == g_hh
+//@   at call Map.LoadOrStore: assert {key.is.the.digest.of.the.three.components} g_wrote && payload(arg1) == g_key && istype(arg1, "uint64")
+//@   at call Map.LoadOrStore: ghost g_shared = result1
+//@   at call Map.LoadOrStore: ghost request.leaderPerm = !result1
+//@   ensures {not.eligible.not.shared} old(ctx.ExecutionOptions.DisableInboundRequestDeduplication) ==> result0 == nil && result1 == nil
+//@   ensures {leader.gets.the.close.permission} result0 != nil && !g_shared ==> result0.leaderPerm && fresh(result0)
+//@   ensures {follower.gets.data.and.no.permission} result0 != nil && g_shared ==> result0.Data != nil
+//@   ensures {leader.or.follower.with.data} result0 != nil ==> result0.leaderPerm || result0.Data != nil
+//@   ensures {a.new.leader.has.no.data} result0 != nil && result0.leaderPerm ==> result0.Data == nil
+//@   ensures {error.returns.no.request} result1 != nil ==> result0 == nil
+//@   modifies *, count(putUint64), allof(InflightRequest.leaderPerm)
+//@   safety no-typeassert
+
+//@ func InboundRequestSingleFlight.FinishOk
+//@   requires r != nil && len(r.shards) > 0
+//@   requires {only.the.leader.finishes} req != nil ==> req.leaderPerm
+//@   at call close: assert {close.with.leader.permission} req.leaderPerm
+//@   at call close: ghost req.leaderPerm = false
+//@   ensures {finished} req != nil ==> !req.leaderPerm
+//@   ensures {followers.get.a.private.copy} req != nil && req.Data != old(req.Data) ==> fresh(req.Data)
+//@   modifies *, allof(InflightRequest.leaderPerm)
+
+//@ func InboundRequestSingleFlight.FinishErr
+//@   requires r != nil && len(r.shards) > 0
+//@   requires {only.the.leader.finishes} req != nil ==> req.leaderPerm
+//@   at call close: assert {close.with.leader.permission} req.leaderPerm
+//@   at call close: ghost req.leaderPerm = false
+//@   ensures {finished} req != nil ==> !req.leaderPerm
+//@   ensures {error.is.the.leaders} req != nil ==> req.Err == err
+//@   modifies *, allof(InflightRequest.leaderPerm)
+
+//@ spec infoOf(f Fetch) *FetchInfo
+
+//@ decl stable Resolver.inboundRequestSingleFlight by New
+//@ decl stable InboundRequestSingleFlight.shards by NewRequestSingleFlight
+//@ func Resolver.ArenaResolveGraphQLResponse
+//@   requires r != nil && ctx != nil && response != nil && r.inboundRequestSingleFlight != nil && len(r.inboundRequestSingleFlight.shards) > 0
+//@   assumes response.Info != nil
+//@   requires {caller.holds.no.leader.permission} forall x :: !ghostat(InflightRequest.leaderPerm, x)
+//@   ghost var g_in *InflightRequest = nil
+//@   ghost var g_leader bool = false
+//@   at call InboundRequestSingleFlight.GetOrCreate: ghost g_in = result0
+//@   at call InboundRequestSingleFlight.GetOrCreate: ghost g_leader = result0 != nil && result0.leaderPerm
+//@   ensures {a.leader.always.finishes} g_leader ==> !g_in.leaderPerm
+//@   modifies *, count(*), allof(InflightRequest.leaderPerm)
+//@   safety lockbalance-off
+
+// C11, subgraph requests: SubgraphRequestSingleFlight. The key is the digest of
+// DataSourceID ":" input [headersHash]; a leader gets the close permission of item.loaded and consumes it
+// in Finish (deferred on every leader path of loadByContext); a follower sends nothing and hands out the
+// leader's bytes.
+//@ spec hmix(h int, x int) int
+//@ spec hmixb(h int, b []byte) int
+
+//@ func SubgraphRequestSingleFlight.shardFor
+//@   requires s != nil && len(s.shards) > 0
+//@   pure
+
+//@ func SubgraphRequestSingleFlight.computeSFKey
+//@   let ds = ite(fetchItem != nil && fetchItem.Fetch != nil && infoOf(fetchItem.Fetch) != nil, hmix(hmix(0, infoOf(fetchItem.Fetch).DataSourceID), ":"), 0)
+//@   ghost var g_h int = 0
+//@   ghost var g_sum int = 0
+//@   ghost var g_extra int = 0
+//@   ghost var g_buf int = 0
+//@   ghost var g_res int = 0
+//@   at call Digest.WriteString: ghost g_h = hmix(g_h, arg1)
+//@   at call PutUint64: ghost g_extra = arg2
+//@   at call PutUint64: ghost g_buf = arr(arg1)
+//@   at call Digest.Write: ghost g_h = ite(arr(arg1) == g_buf && g_buf != 0 && len(arg1) == 8, hmix(g_h, g_extra), hmixb(g_h, arg1))
+//@   at call Digest.Sum64: ghost g_sum = g_h
+//@   at call Digest.Sum64: ghost g_res = result
+//@   ensures {key.covers.datasource.input.headers} g_sum == ite(extraKey != 0, hmix(hmixb(ds, input), extraKey), hmixb(ds, input))
+//@   ensures {key.is.the.digest.after.these.writes} result == g_res
+//@   modifies *, count(putUint64)
+
+//@ func SubgraphRequestSingleFlight.computeFetchKey
+//@   modifies *
+
+//@ func SubgraphRequestSingleFlight.computeKeys
+//@   requires s != nil
+//@   ghost var g_k int = 0
+//@   at call SubgraphRequestSingleFlight.computeSFKey: assert {key.of.this.fetch} arg2 == fetchItem && arg3 == input && arg4 == extraKey
+//@   at call SubgraphRequestSingleFlight.computeSFKey: ghost g_k = result
+//@   ensures {sfkey.is.computeSFKey} result0 == g_k
+//@   modifies *, count(putUint64)
+
+//@ decl stable SubgraphRequestSingleFlight.shards by NewSingleFlight
+//@ func SubgraphRequestSingleFlight.GetOrCreateItem
+//@   requires s != nil && len(s.shards) > 0 && noneheld(fetchSize.mu)
+//@   requires {caller.holds.no.leader.permission} forall x :: !ghostat(SingleFlightItem.leaderPerm, x)
+//@   ghost var g_k int = 0
+//@   at call SubgraphRequestSingleFlight.computeKeys: assert {key.of.this.fetch} arg1 == fetchItem && arg2 == input && arg3 == extraKey
+//@   at call SubgraphRequestSingleFlight.computeKeys: ghost g_k = result0
+//@   at call Map.LoadOrStore: assert {items.are.shared.by.sfkey} payload(arg1) == g_k && istype(arg1, "uint64")
+//@   at call Map.LoadOrStore: ghost item.leaderPerm = !result1
+//@   ensures {leader.gets.the.close.permission} !result1 ==> result0 != nil && fresh(result0) && result0.leaderPerm
+//@   ensures {leader.item.carries.the.key} !result1 ==> result0.SFKey == g_k
+//@   ensures {leader.item.is.empty} !result1 ==> result0.err == nil && result0.response == nil
+//@   ensures {follower.gets.no.permission} result1 ==> !result0.leaderPerm
+//@   ensures {at.most.one.permission} forall x :: x != result0 ==> !ghostat(SingleFlightItem.leaderPerm, x)
+//@   modifies *, count(putUint64), allof(SingleFlightItem.leaderPerm)
+//@   emits sfLookup
+//@   safety no-typeassert
+
+//@ func SubgraphRequestSingleFlight.Finish
+//@   requires s != nil && len(s.shards) > 0 && item != nil && noneheld(fetchSize.mu)
+//@   requires {only.the.leader.finishes} item.leaderPerm
+//@   at call close: assert {close.with.leader.permission} item.leaderPerm
+//@   at call close: ghost item.leaderPerm = false
+//@   ensures {finished} !item.leaderPerm
+//@   ensures {other.permissions.untouched} forall x :: x != item ==> ghostat(SingleFlightItem.leaderPerm, x) == old(ghostat(SingleFlightItem.leaderPerm, x))
+//@   modifies global(ext), allof(fetchSize.count), allof(fetchSize.totalBytes), allof(SingleFlightItem.leaderPerm)
+//@   safety no-typeassert
+
+//@ func SubgraphHeadersBuilder.HeadersForSubgraph
+//@   pure
+//@   trusted interface method (pre-computed headers and their hash)
+//@ func Loader.headersForSubgraphRequest
+//@   requires l != nil && l.ctx != nil
+//@   pure
+
+//@ func Loader.loadByContextDirect
+//@   requires l != nil && l.ctx != nil && res != nil
+//@   ensures {direct.load.sends.once} count(sent) == old(count(sent)) + 1
+//@   ensures {error.is.reported} result == nil ==> res.err == nil
+//@   modifies res.out, res.err, global(ext), count(sent)
+
+//@ func Loader.loadByContext
+//@   requires l != nil && l.ctx != nil && res != nil && l.singleFlight != nil && len(l.singleFlight.shards) > 0 && noneheld(fetchSize.mu)
+//@   requires {caller.holds.no.leader.permission} forall x :: !ghostat(SingleFlightItem.leaderPerm, x)
+//@   ghost var g_item *SingleFlightItem = nil
+//@   ghost var g_shared bool = false
+//@   ghost var g_used bool = false
+//@   ghost var g_cancelled bool = false
+//@   ghost var g_extra int = 0
+//@   at call Loader.headersForSubgraphRequest: ghost g_extra = result1
+//@   at call SubgraphRequestSingleFlight.GetOrCreateItem: assert {dedup.key.is.this.fetch.with.headers.hash} arg1 == fetchItem && arg2 == input && arg3 == g_extra
+//@   at call SubgraphRequestSingleFlight.GetOrCreateItem: ghost g_item = result0
+//@   at call SubgraphRequestSingleFlight.GetOrCreateItem: ghost g_shared = result1
+//@   at call SubgraphRequestSingleFlight.GetOrCreateItem: ghost g_used = true
+//@   at call Context.Err: ghost g_cancelled = true
+//@   ensures {only.queries.are.deduplicated} g_used ==> fetchItem != nil && old(fetchItem.Fetch != nil && infoOf(fetchItem.Fetch) != nil && infoOf(fetchItem.Fetch).OperationType == ast.OperationTypeQuery && !l.ctx.ExecutionOptions.DisableSubgraphRequestDeduplication)
+//@   ensures {a.leader.always.finishes} forall x :: !ghostat(SingleFlightItem.leaderPerm, x)
+//@   ensures {follower.sends.nothing} g_shared ==> count(sent) == old(count(sent))
+//@   ensures {leader.or.direct.sends.once} !g_shared ==> count(sent) == old(count(sent)) + 1
+//@   ensures {follower.gets.the.leaders.bytes} g_shared && result == nil && !g_cancelled ==> res.out == g_item.response
+//@   ensures {follower.result.is.the.leaders.error.or.its.own.cancellation} g_shared && !g_cancelled ==> result == g_item.err
+//@   ensures {leader.publishes.its.bytes} g_used && !g_shared && result == nil ==> g_item.response == res.out && g_item.err == nil
+//@   ensures {leader.publishes.its.error} g_used && !g_shared && result != nil ==> g_item.err == result
+//@   modifies *, count(sent), count(sfLookup), count(putUint64), allof(SingleFlightItem.leaderPerm)
